@@ -64,6 +64,8 @@ def h_parser(I, job):
     elif not shf: ev += 'H'
     ev += 'E'
     if got != ev: raise Finding('relay', 'parser stage emits %r, the relay law requires %r (H header value, h header exception, D buffer, X exception, E end of data)' % (got, ev))
+    if I.concretize(I.call('@verif_parser_input_queue_shut_down', []), 'shut') != 1:
+        raise Finding('input-queue-open', 'the parser has ended (%s) and was destroyed, but its raw input queue is not shut down: a read thread blocked on the full queue never ends and Reader::close() waits for it for ever' % ('with an exception' if thr else 'normally'))
     I.reach('end')
 
 
